@@ -91,6 +91,8 @@ def gen_ops(rng, nops, allow_skip=False, allow_unmodelled=True, nvars=6):
             ops.append(["target", tgt, rng.choice(LIMS)])
         elif allow_skip and r < 0.93:
             ops.append(["skipmin", a] if rng.random() < 0.6 else ["skiprem"])
+        elif rng.random() < 0.35:
+            ops.append([rng.choice(["pnet", "pnet", "cands", "seedsq"]), a])
         elif allow_unmodelled:
             if rng.random() < 0.5:
                 ops.append(["aseeds", rng.choice(LIMS)])
@@ -196,6 +198,23 @@ def apply_op(sd, ni, op):
         if kind == "scc":
             r = sd.expand_scc(find_motif_avoidant_attractors=bool(op[1]))
             return str(bool(r)).lower(), None
+        if kind == "pnet":
+            sd.node_percolated_petri_net(op[1] % n, compute=True)
+            return "none", "NOP"
+        if kind == "cands":
+            try:
+                sd.node_attractor_candidates(op[1] % n, compute=True)
+            except RuntimeError as e:
+                if isinstance(e, Injected):
+                    raise
+            return "none", "NOP"
+        if kind == "seedsq":
+            try:
+                sd.node_attractor_seeds(op[1] % n, compute=True)
+            except RuntimeError as e:
+                if isinstance(e, Injected):
+                    raise
+            return "none", "NOP"
         if kind == "pickle":
             return "none", "NOP"
         if kind == "reclaim":
@@ -351,7 +370,7 @@ def run_plain_history(case, judge_leaves=False, literal=True):
                               "dump": line[:500]})
     return {"fails": fails, "diffs": diffs, "tags": sorted(tags),
             "nontrivial": changed >= 2 and mixed, "sig": common.case_hash([case["bnet"], case["ops"]]),
-            "sample": {"final_dump": final[:300]}}
+            "final_dump": final, "sample": {"final_dump": final[:300]}}
 
 
 def dump_of(sd, ni):
